@@ -40,8 +40,16 @@ def _task(t):
         return ('err', part, traceback.format_exc())
 
 
+def out_dir(kind):
+    """evidence/ and replays/ under /verif - unless the run is against a scratch copy of the
+    repository (VERIF_REPO set), whose output must never be mistaken for evidence about /repo."""
+    if os.path.realpath(core.REPO_DIR) == '/repo':
+        return os.path.join(core.VERIF_DIR, kind)
+    return os.path.join(os.environ.get('VERIF_SCRATCH_OUT', '/var/tmp/vf-scratch-out'), kind)
+
+
 def write_replay(prop, v):
-    d = os.path.join(core.VERIF_DIR, 'replays')
+    d = out_dir('replays')
     os.makedirs(d, exist_ok=True)
     body = {'property': prop, 'stage': v['stage'], 'case': v['case'], 'detail': v['detail']}
     txt = json.dumps(body, sort_keys=True, default=repr, ensure_ascii=True, indent=1)
@@ -176,7 +184,7 @@ def cmd_check(prop, tier, seed):
         'wall_s': round(wall, 2),
         'violations': len(uniq),
     }
-    d = os.path.join(core.VERIF_DIR, 'evidence')
+    d = out_dir('evidence')
     os.makedirs(d, exist_ok=True)
     with open(os.path.join(d, '%s.json' % prop), 'w') as f:
         json.dump(ev, f, indent=1, sort_keys=True, default=repr)
